@@ -5,6 +5,5 @@ CONSTANTS
   Deltas = {1, 2}
   MaxDepth = 0
   MaxK = 2
-  Fin = FALSE
 PROPERTY Terminates
 INVARIANT StepBound
